@@ -947,7 +947,10 @@ def _stroh_case(ctx, spec, s):
     sc_l = cmax * (1 + ap) * aA.max(axis=1, keepdims=True) + aL.max(axis=1, keepdims=True)
     checks = [('eigen-top', top, sc_top * eps), ('eigen-bottom', bot, sc_bot * eps),
               ('sextic', sext, sc_sext * eps * 10), ('L=-(nm+p nn)A', lres, sc_l * eps * 10),
-              ('k', kres, np.abs(s.k) * 1e-13), ('sqrt k', skres, np.abs(s.k) * 1e-14)]
+              # k = 1 / (2 A.L) from the stored doubles (L and k carry one more rounding each since repo fix 540bb56): relative
+              # round-off of the complex dot product, amplified by its cancellation
+              ('k', kres, np.abs(s.k) * np.maximum(1e-13, 8e-15 * (aA * aL).sum(axis=1) / np.abs((s.A * s.L).sum(axis=1)))),
+              ('sqrt k', skres, np.abs(s.k) * 1e-14)]
     for name, res, bound in checks:
         ratio = float((np.abs(res) / bound).max())
         _track(ctx, name, ratio)
@@ -1599,10 +1602,16 @@ def _clauses(ctx, spec, s, rng, kind):
         arr = np.array([X, Xz, X])
         ua, ea, sa = s.displacement(arr), s.strain(arr), s.stress(arr)
         us = bn * (abs(math.log(r / ls)) + abs(math.log(ls)) + 4)
+        ea_s, sa_s = es, ss
+        if hasattr(s, 'A'):
+            # how many points are evaluated together changes the order of the sums: round-off relative to the sum of the |terms|
+            # (near-isotropic media: 1e3 .. 1e5 x the result)
+            _e, su_, se_, ss_ = _field_scales(s, X0.reshape(1, 3))
+            us, ea_s, sa_s = max(us, float(su_[0])), max(es, float(se_[0])), max(ss, float(ss_[0]))
         if ua.shape != (3, 3) or ea.shape != (3, 3, 3) or float(np.abs(ua[0] - u).max()) > 1e-12 * us \
-                or float(np.abs(ea[2] - e).max()) > 1e-12 * es or float(np.abs(sa[0] - sg).max()) > 1e-12 * ss:
+                or float(np.abs(ea[2] - e).max()) > 1e-12 * ea_s or float(np.abs(sa[0] - sg).max()) > 1e-12 * sa_s:
             ctx.violate(f'{kind}:array', f'{kind}: fields of an array of points differ from the single-point values', rep)
-        elif float(np.abs(ua[1] - u).max()) > 1e-10 * us or float(np.abs(ea[1] - e).max()) > 1e-10 * es:
+        elif float(np.abs(ua[1] - u).max()) > 1e-10 * us or float(np.abs(ea[1] - e).max()) > 1e-10 * ea_s:
             ctx.violate(f'{kind}:line-invariance', f'{kind}: fields change along the dislocation line at {X.tolist()}', rep)
     # ---- Burgers vector: jump across the cut, continuity elsewhere -------------------------------
     for it in range(3):
@@ -1652,6 +1661,16 @@ def _near_degenerate(s):
     if not hasattr(s, 'A'):
         return False
     return float(np.linalg.cond(np.hstack([s.A, s.L / float(np.abs(s.C.Cijkl).max())]).T)) > 1e4
+
+
+def _sensitivity(s):
+    """how much a rounding-level (1e-16) change of the rotated stiffness may change K and the fields: the eigenvectors of close
+    eigenvalue pairs move by 1e-16 x cond(V)^2 (observed: 2e-11 at cond 250); 1e-11 for the closed-form isotropic solver."""
+    np = _np()
+    if not hasattr(s, 'A'):
+        return 1e-11
+    c = float(np.linalg.cond(np.hstack([s.A, s.L / float(np.abs(s.C.Cijkl).max())]).T))
+    return min(1e-6, max(1e-11, 1e-14 * c * c))
 
 
 def _rot_float(R):
@@ -2176,7 +2195,7 @@ def _scale_sweep(ctx, spec0, rng, kind):
                         f'when lengths are multiplied by {ls!r} and the stiffness by {cs!r}', rep)
             continue
         # (a factor that is not a power of two moves components sitting at the round-off clean-up threshold tol across it)
-        rt = 1e-11 if pow2 else max(1e-9, 3 * spec0['tol'])
+        rt = 1e-11 if pow2 else max(1e-9, 3 * spec0['tol'], 10 * _sensitivity(base))
         P = P0 * ls
         U, E, S, K = s.displacement(P), s.strain(P), s.stress(P), s.K_tensor
         if any(np.iscomplexobj(a) for a in (U, E, S, K)):
@@ -2520,6 +2539,7 @@ def _arg_forms(ctx, spec, rng, kind):
     P = np.array(gen_points(rng, s0, 2, special=False, ls=ls))
     obs0 = _all_observables(s0, P)
     rep = {'op': 'argforms', 'solver': kind, 'spec': spec}
+    sens = _sensitivity(s0)
 
     def exact(a, dt):
         return np.array_equal(np.asarray(a, dtype=dt).astype(float), np.asarray(a, dtype=float))
@@ -2579,7 +2599,7 @@ def _arg_forms(ctx, spec, rng, kind):
             ctx.violate(f'{kind}:argform-raises', f'{kind} built with {name}: reading the solution {st}', dict(rep, form=name))
             continue
         # (the eigenvectors' normalisation and phase are the eigen-solver's choice: compared through the fields and K)
-        diff = [k_ for k_ in obs0 if k_ not in ('A', 'L', 'k') and (_rel(obs[k_], obs0[k_]) > (1e-8 if k_ == 'p' else 1e-11)
+        diff = [k_ for k_ in obs0 if k_ not in ('A', 'L', 'k') and (_rel(obs[k_], obs0[k_]) > (max(1e-8, 1e3 * sens) if k_ == 'p' else sens)
                                                                      or np.asarray(obs[k_]).dtype != np.asarray(obs0[k_]).dtype)]
         if diff:
             ctx.violate(f'{kind}:argform', f'{kind}: with {name} the solution differs in {diff} from the one built with float64 arrays '
@@ -2890,6 +2910,15 @@ THEOREMS = [
     'C12.dispatch_iso_iff', 'C12.dispatch_none_iff',
 ]
 PARTIAL = {
+    'object level': 'history_read / arg_edits_invisible / scale_edit_read are statements about the model World (the solved object '
+        'holds copies; a read is a function of the object and of the current contents of the array); that the real classes behave '
+        'like it is tied by the correspondence op seq (Stroh) and, for the isotropic solver and the entry point, explored by the '
+        'search (in-place sequences, argument aliasing) only. The model\'s solve keeps the rotated medium / Burgers vector without '
+        'the round-off clean-ups (those are in orientC / orientB, compared separately).',
+    'units': 'stroh_checks_unit_invariant covers the four self-checks; the fifth acceptance test (K_tensor real, an absolute '
+        'tolerance on Im K) is unit-free only because Im K = 0 exactly for conjugate pairs (K_real_partial, ConjPairs verified by '
+        'the driver); length_unit_displacement takes ln(t eta) = ln t + ln eta as a hypothesis (true for the principal logarithm and '
+        't > 0 real). Powers of two only are compared exactly by the search; other factors within max(1e-9, 3 tol).',
     'displacement jump (Stroh)': 'burgers_closure / burgers_jump_limit (one-sided limits of the coded displacement with the '
         'principal complex logarithm, lim(y->0+) - lim(y->0-) = b) assume the completeness relation sum_a k_a A_a (x) L_a = 1 '
         'exactly (it is the solver\'s own first self-check, which holds to round-off; the driver recomputes the residual for '
@@ -2944,7 +2973,19 @@ RULE = ('correspondence: positive-definite stiffness of the 7 crystal classes (i
         'components, in-plane, climb only, |b.n| = 0.25 / 0.5 tol max|b| (accepted by the isotropic solver), 2 / 4 tol .. '
         '1e-3 (refused); Stroh, IsotropicVolterraDislocation and solve_volterra_dislocation are all run at every eps; a sweep '
         'whose orientation is degenerate even at eps = 0.1 counts as trivial. re-solve sequences: 3 problems on one object. '
-        'search: same generators, clauses evaluated on the real code only')
+        'search: same generators, clauses evaluated on the real code only. '
+        'round 2: every problem has a stiffness unit (1, 160.25, 2^-7 or 2^j, |j| <= 200) and a length unit (1 or 2^k, |k| <= 100; '
+        'the cell or the Burgers vector is scaled, all distances are multiples of it); cells also strongly sheared / flat / '
+        'rotated / axis-permuted / left-handed (vector conversion only) and with non-zero origins; media with symmetry-allowed '
+        'constants of 1e-4 .. 3e-7 of the largest, crossed with tol 1e-5 / 1e-6; eigenproblems with cond(V) > 1e4 count as '
+        'trivial (nearly defective). field points as int / float32 / float16 arrays, nested lists / tuples, mixed scalars, '
+        'Fortran / strided / reversed / read-only views, single points in 9 forms, empty arrays; constructor arguments as lists / '
+        'tuples / int / float32 / Fortran / strided / read-only arrays, numpy flags, positional through class and entry point; '
+        'the same problem in 6 other units per sweep (small and large length, small and large stiffness, mixed, a real unit '
+        'system); histories of 5-9 in-place edits of ONE coordinate array (shift, column, double, halve, row, overwrite, negate, '
+        'temporaries) with reads in shuffled order; every constructor argument edited in place after solving, recycled for a '
+        'second problem, every array-valued result scribbled over; the un-rotated crystal (no orientation / transform = 1 / '
+        'axes = 2*1) always among the aliasing and object-level (seq) cases')
 ASSUMPTIONS = [
     'numpy.linalg.eig returns (p_a, (A_a, L_a)) with N v = p v up to the residual recomputed by the driver on every solved '
     'problem (bound 1e-13 x cond(V) x row scale); exact eigenvalue degeneracy is outside the property',
@@ -2962,6 +3003,7 @@ ASSUMPTIONS = [
     'solution uses a medium within 2e-4 of the given one)',
 ]
 TRUSTED = ['numpy.linalg.eig / inv / norm, np.log, np.arctan (values handed to the model, residuals recomputed exactly)',
+           'numpy array semantics (views, in-place operators, np.shares_memory) in the in-place / aliasing oracles',
            'the AST translator for IsotropicVolterraDislocation.py (this module + harness/translate.py)',
            'finite-difference oracles (4th-order Richardson, h = r/1000) in the search']
 
@@ -2979,7 +3021,12 @@ MANIFEST = {
             'problem and the isotropic closed form only for isotropic constants with an in-plane Burgers vector. Analytic versions with Mathlib\'s complex logarithm / arctan / log: '
             'strain = symmetric gradient and div stress = 0 as HasDerivAt statements (Stroh over C, isotropic over R), '
             'continuity off the cut, one-sided limits at the cut differ by b. Partial: positive-definite Stroh K, isotropic '
-            'limit, ordering of the eigen-solver output (explored / verified on the real code).',
+            'limit, ordering of the eigen-solver output (explored / verified on the real code). Round 2: the same problem in '
+            'another length / stiffness unit (displacement jump and coefficients times t, strain unchanged, stress and K times c, the '
+            'rescaled eigenvectors solve the rescaled eigenproblem, the solver\'s self-checks give the same verdict in every stiffness '
+            'unit); object model (caller\'s argument objects, one coordinate array, solved object holding copies): after any history '
+            'of in-place edits every read is the field of the problem as solved at the array\'s current contents; correspondence op '
+            'seq runs such histories on the real Stroh object and on the model.',
     'note': 'Trusted: Lean kernel + propext/Classical.choice/Quot.sound; numpy.linalg.eig/inv, np.log, np.arctan (their values '
             'are inputs of the model and the residuals of what the theorems assume about them are recomputed exactly by the '
             'driver for every solved problem); the AST translator; float round-off bounded by 1e-11 x sum |terms| in the '
